@@ -514,3 +514,46 @@ def write_replay(prop, kind, session_res, note=""):
             if r["I"] != r["M"] or r["M"] != r["S"]:
                 f.write("#   impl : %s\n#   model: %s\n#   spec : %s\n#   flags: %s\n" % (r["I"], r["M"], r["S"], r["F"]))
     return path
+
+
+# ---------------------------------------------------------------------------- pinned tree
+PIN_FILE = os.path.join(VERIF, "pinned_tree.json")
+
+
+def _anchor_dirs(prop):
+    dirs = set()
+    try:
+        for l in open(os.path.join(VERIF, "properties.jsonl")):
+            j = json.loads(l)
+            if j.get("id") == prop:
+                for f in j.get("anchors", {}).get("files", []):
+                    dirs.add(f.rsplit("/", 1)[0])
+    except (OSError, ValueError):
+        pass
+    return dirs
+
+
+def changed_since_pin():
+    """non-test Go files of REPO that differ from the pinned commit (working tree, index or later commits)"""
+    try:
+        pin = json.load(open(PIN_FILE)).get("commit", "")
+    except (OSError, ValueError):
+        return []
+    if not pin:
+        return []
+    rc, out = run(["git", "-C", REPO, "diff", "--name-only", pin, "--"], timeout=60)
+    if rc != 0:
+        return []
+    rc2, out2 = run(["git", "-C", REPO, "ls-files", "--others", "--exclude-standard"], timeout=60)
+    files = set(out.split()) | (set(out2.split()) if rc2 == 0 else set())
+    return sorted(f for f in files if f.endswith(".go") and not f.endswith("_test.go") and "/zverif/" not in f)
+
+
+def relevant_changes(prop):
+    dirs = _anchor_dirs(prop)
+    out = []
+    for f in changed_since_pin():
+        d = f.rsplit("/", 1)[0]
+        if any(d == a or d.startswith(a + "/") or a.startswith(d + "/") for a in dirs):
+            out.append(f)
+    return out
